@@ -63,6 +63,9 @@ type Hooks struct {
 	// being passed through With... options.
 	OwnedNS   map[string]string
 	OwnedVars map[xsel.XmlName]xsel.Result
+	// OwnedFrozen: the owned maps were filled before the run and are only
+	// read (shared between concurrent tasks).
+	OwnedFrozen bool
 	// FuncValue returns the caller-held object a "held" callback hands out.
 	FuncValue func(name string) (xsel.Result, bool)
 	// Reentered is called when a callback re-enters Exec.
@@ -186,11 +189,13 @@ func evalDepth(w *World, req ExecReq, h *Hooks, depth int, outerExpr string) (n 
 	var res xsel.Result
 	if h != nil && h.OwnedNS != nil {
 		// the caller installs its own long-lived maps, like the CLI does
-		for k := range h.OwnedVars {
-			delete(h.OwnedVars, k)
-		}
-		for k, v := range vars {
-			h.OwnedVars[k] = v
+		if !h.OwnedFrozen {
+			for k := range h.OwnedVars {
+				delete(h.OwnedVars, k)
+			}
+			for k, v := range vars {
+				h.OwnedVars[k] = v
+			}
 		}
 		nsBefore := map[string]string{}
 		for k, v := range h.OwnedNS {
@@ -201,7 +206,9 @@ func evalDepth(w *World, req ExecReq, h *Hooks, depth int, outerExpr string) (n 
 			c.Variables = h.OwnedVars
 			c.FunctionLibrary = funcs
 		})
-		if d := mapsDiffer(nsBefore, h.OwnedNS, vars, h.OwnedVars); d != "" {
+		if h.OwnedFrozen {
+			// checked by the caller after the join
+		} else if d := MapsDiffer(nsBefore, h.OwnedNS, vars, h.OwnedVars); d != "" {
 			defer func() { n.Mutated = d }()
 		}
 	} else {
@@ -209,11 +216,22 @@ func evalDepth(w *World, req ExecReq, h *Hooks, depth int, outerExpr string) (n 
 		for _, k := range sortedKeys(b.NS) {
 			opts = append(opts, xsel.WithNS(k, b.NS[k]))
 		}
-		for name, v := range vars {
-			opts = append(opts, xsel.WithVariableName(name, v))
+		// deterministic option order: the With... closures are yield-instrumented
+		vnames := map[string]string{}
+		for name := range vars {
+			vnames[name.Local] = ""
 		}
-		for name, f := range funcs {
-			opts = append(opts, xsel.WithFunctionName(name, f))
+		for _, k := range sortedKeys(vnames) {
+			name := xsel.XmlName{Local: k}
+			opts = append(opts, xsel.WithVariableName(name, vars[name]))
+		}
+		fnames := map[string]string{}
+		for name := range funcs {
+			fnames[name.Local] = ""
+		}
+		for _, k := range sortedKeys(fnames) {
+			name := xsel.XmlName{Local: k}
+			opts = append(opts, xsel.WithFunctionName(name, funcs[name]))
 		}
 		res, err = xsel.Exec(w.Cursor(req.Ctx), g, opts...)
 	}
@@ -230,7 +248,7 @@ func evalDepth(w *World, req ExecReq, h *Hooks, depth int, outerExpr string) (n 
 	return Norm{Val: v}
 }
 
-func mapsDiffer(nsBefore, nsAfter map[string]string, varsBefore, varsAfter map[xsel.XmlName]xsel.Result) string {
+func MapsDiffer(nsBefore, nsAfter map[string]string, varsBefore, varsAfter map[xsel.XmlName]xsel.Result) string {
 	if len(nsBefore) != len(nsAfter) {
 		return "namespace map changed size"
 	}
